@@ -164,6 +164,9 @@ def _recompute(comp, seq):
 
 
 def replay(data):
+    if data.get('query') == 'crosshair':
+        from ..xhair import replay_harness
+        return replay_harness(data)
     comp = compile_design(data['desc'], need_ref=False)
     try:
         res = checker(comp.block, data['sequence'])
@@ -189,3 +192,7 @@ def run(ctx):
     ds = designs(ctx.tier, ctx.seed) + c25.nest_designs(ctx.tier, ctx.seed)
     res = pmap(ctx, check, ds)
     ctx.extra['design_outcomes'] = {str(k): res.count(k) for k in set(res)}
+    from .. import conform
+    from ..xhair import run_cases
+    run_cases(ctx, conform.HEADER, conform.cases(ctx.tier), timeout=600 if ctx.tier == 'thorough' else 150, path_timeout=30,
+              module_tag='conform', keyfn=lambda c, kw: f'conform:{c.name}')
